@@ -482,3 +482,19 @@ PROPS["C05"].update(tie=["TieWriter"], tie_theorems=TIE_WRITER)
 PROPS["C09"].update(tie=["TieWriter"], tie_theorems=TIE_WRITER)
 PROPS["C10"].update(tie=["Tie", "TieFraming"], tie_theorems=TIE_READ + TIE_FRAMING)
 PROPS["C18"].update(tie=["Tie"], tie_theorems=TIE_ACCESSORS + TIE_LAYOUT)
+
+
+def _addcamp(pid, camp, nq, nt):
+    if camp not in [c[0] for c in PROPS[pid]["campaigns"]]:
+        PROPS[pid]["campaigns"].append((camp, nq, nt))
+
+
+# wave 4: names, parameter values and client parameters are zero-copy views into the reader's memory, so the
+# properties about them depend on the reader never writing a handed-out window again (tie: layout theorems;
+# campaign: `retain`, histories that cross the 4 KiB granules and carry message bodies above 4 KiB)
+for _p in ("C03", "C06", "C07", "C08", "C12"):
+    _addcamp(_p, "retain", 500, 30000)
+for _p in ("C06", "C07", "C08", "C12"):
+    PROPS[_p].update(tie=["Tie"], tie_theorems=TIE_ACCESSORS + TIE_LAYOUT)
+PROPS["C01"].update(tie=["Tie", "TieFraming"], tie_theorems=[_T + "tie_GetString"] + TIE_READ + TIE_FRAMING)
+PROPS["C17"].update(tie=["TieWriter"], tie_theorems=TIE_WRITER)
